@@ -747,6 +747,13 @@ def comparisons(body):
 def len_at_least_edges(body, roots, need):
     """Edges on which len(x) >= need is known, for x with identity roots `roots`."""
     edges = []
+    if need <= 1:
+        for c in body.calls(r'::is_empty$'):
+            if c.args and roots_of(body, c.args[0]) & roots:
+                for (sb, neg) in switch_on(body, c.dest['l']):
+                    te, fe = bool_edges(body, sb, neg)
+                    if fe is not None:
+                        edges.append(fe)
     for cmp_ in comparisons(body):
         ca, cb = classify_scalar(body, cmp_['a']), classify_scalar(body, cmp_['b'])
         op = cmp_['op']
